@@ -1,4 +1,1549 @@
+//! Strict class-file parser (bytes -> `Sem`) and the shared walker used by
+//! the validator.
+//!
+//! The walker runs in one of two modes:
+//! * strict (`parse`, `parse_prefix`): the first *hard* problem is returned as
+//!   `ParseError`; *soft* problems (facts that `Sem` can represent although
+//!   JVMS forbids them, e.g. a malformed descriptor) are ignored.
+//! * collect (`validate`): every problem, hard or soft, is recorded and the
+//!   walk continues with a placeholder wherever possible.
+//!
+//! The parser never panics: all indexing is checked, recursion is bounded,
+//! and nothing is allocated proportionally to an untrusted count.
+
+#[path = "parse_code.rs"]
+mod code;
+
+use std::collections::HashMap;
+
+use crate::desc;
+use crate::jstr::JStr;
+use crate::sem::*;
+
 #[derive(Debug, Clone, PartialEq, Eq)]
-pub struct ParseError { pub offset: usize, pub what: String }
-pub fn parse(_b: &[u8]) -> Result<crate::sem::Sem, ParseError> { unimplemented!() }
-pub fn parse_prefix(_b: &[u8]) -> Result<(crate::sem::Sem, usize), ParseError> { unimplemented!() }
+pub struct ParseError {
+    /// Byte offset in the input at which the problem was detected.
+    pub offset: usize,
+    /// `prefix: detail` (same prefixes as the validator).
+    pub what: String,
+}
+
+impl std::fmt::Display for ParseError {
+    fn fmt(&self, f: &mut std::fmt::Formatter<'_>) -> std::fmt::Result {
+        write!(f, "{} (at byte {})", self.what, self.offset)
+    }
+}
+impl std::error::Error for ParseError {}
+
+pub(crate) type R<T> = Result<T, ParseError>;
+
+/// Maximum nesting of annotations / element values.
+pub const MAX_ANNOTATION_DEPTH: usize = 64;
+/// Maximum nesting of CONSTANT_Dynamic inside bootstrap arguments.
+pub const MAX_DYNAMIC_DEPTH: usize = 16;
+/// Maximum total number of constants materialised for Dynamic arguments.
+const DYNAMIC_BUDGET: usize = 1 << 16;
+
+#[derive(Debug, Clone, PartialEq)]
+pub(crate) enum Cp {
+    /// Index 0 or the slot after a Long/Double.
+    Unusable,
+    Utf8(JStr),
+    Int(i32),
+    Float(u32),
+    Long(i64),
+    Double(u64),
+    Class(u16),
+    String(u16),
+    Field(u16, u16),
+    Method(u16, u16),
+    IMethod(u16, u16),
+    Nat(u16, u16),
+    MHandle(u8, u16),
+    MType(u16),
+    Dynamic(u16, u16),
+    Indy(u16, u16),
+    Module(u16),
+    Package(u16),
+}
+
+impl Cp {
+    fn kind(&self) -> &'static str {
+        match self {
+            Cp::Unusable => "unusable",
+            Cp::Utf8(_) => "Utf8",
+            Cp::Int(_) => "Integer",
+            Cp::Float(_) => "Float",
+            Cp::Long(_) => "Long",
+            Cp::Double(_) => "Double",
+            Cp::Class(_) => "Class",
+            Cp::String(_) => "String",
+            Cp::Field(..) => "Fieldref",
+            Cp::Method(..) => "Methodref",
+            Cp::IMethod(..) => "InterfaceMethodref",
+            Cp::Nat(..) => "NameAndType",
+            Cp::MHandle(..) => "MethodHandle",
+            Cp::MType(_) => "MethodType",
+            Cp::Dynamic(..) => "Dynamic",
+            Cp::Indy(..) => "InvokeDynamic",
+            Cp::Module(_) => "Module",
+            Cp::Package(_) => "Package",
+        }
+    }
+}
+
+/// Attribute location.
+#[derive(Debug, Clone, Copy, PartialEq, Eq)]
+pub(crate) enum Loc {
+    Class,
+    Field,
+    Method,
+    Code,
+    Component,
+}
+
+/// Everything an attribute table can contain; each location takes what it
+/// recognises.
+#[derive(Default)]
+pub(crate) struct Attrs {
+    seen: Vec<&'static str>,
+    pub constant_value: Option<ConstValue>,
+    pub code: Option<Code>,
+    pub exceptions: Option<Vec<JStr>>,
+    pub method_parameters: Option<Vec<MethodParameter>>,
+    pub annotation_default: Option<ElementValue>,
+    pub parameter_annotations: ParamAnnotations,
+    pub signature: Option<JStr>,
+    pub synthetic: bool,
+    pub deprecated: bool,
+    pub annotations: Annotations,
+    pub type_annotations: TypeAnnotations,
+    pub source_file: Option<JStr>,
+    pub source_debug_extension: Option<Vec<u8>>,
+    pub inner_classes: Option<Vec<InnerClass>>,
+    pub enclosing_method: Option<EnclosingMethod>,
+    pub nest_host: Option<JStr>,
+    pub nest_members: Option<Vec<JStr>>,
+    pub permitted_subclasses: Option<Vec<JStr>>,
+    pub record: Option<Vec<RecordComponent>>,
+    pub module: Option<Module>,
+    pub module_packages: Option<Vec<JStr>>,
+    pub module_main_class: Option<JStr>,
+    pub line_numbers: Vec<LineNumber>,
+    pub local_vars: Vec<LocalVar>,
+    pub local_var_types: Vec<LocalVar>,
+    pub frames_raw: Option<Vec<(usize, RawFrame)>>,
+    pub unknown: Vec<UnknownAttr>,
+}
+
+/// Context for attributes inside a Code attribute.
+pub(crate) struct CodeCx {
+    /// Absolute file offset of code[0].
+    pub code_len: usize,
+    /// For each byte offset 0..=code_len: instruction index or u32::MAX.
+    pub idx_of: Vec<u32>,
+    pub n_insns: usize,
+    /// Opcode byte at each instruction (for soft checks).
+    pub opcodes: Vec<u8>,
+    /// Decoding failed (collect mode): offsets cannot be checked.
+    pub broken: bool,
+    pub n_exceptions: usize,
+}
+
+impl CodeCx {
+    /// Instruction index of a bytecode offset that must be an instruction start.
+    pub fn insn_at(&self, off: usize) -> Option<usize> {
+        match self.idx_of.get(off) {
+            Some(&i) if i != u32::MAX && (i as usize) < self.n_insns => Some(i as usize),
+            _ => None,
+        }
+    }
+    /// Like `insn_at` but `code_len` maps to `n_insns`.
+    pub fn insn_or_end(&self, off: usize) -> Option<usize> {
+        if off == self.code_len {
+            Some(self.n_insns)
+        } else {
+            self.insn_at(off)
+        }
+    }
+}
+
+pub(crate) struct P<'b> {
+    pub b: &'b [u8],
+    pub pos: usize,
+    /// Reads may not go past this offset (end of the enclosing attribute).
+    pub limit: usize,
+    pub collect: bool,
+    pub problems: Vec<String>,
+    pub cp: Vec<Cp>,
+    pub major: u16,
+    /// Raw BootstrapMethods table (located by a pre-scan).
+    pub bsm: Option<Vec<(u16, Vec<u16>)>>,
+    dyn_cache: HashMap<u16, (Const, usize)>,
+    dyn_budget: usize,
+    pub this_class: JStr,
+}
+
+pub(crate) fn err<T>(offset: usize, prefix: &str, msg: impl AsRef<str>) -> R<T> {
+    Err(ParseError { offset, what: format!("{}: {}", prefix, msg.as_ref()) })
+}
+
+impl<'b> P<'b> {
+    pub fn new(b: &'b [u8], collect: bool) -> P<'b> {
+        P {
+            b,
+            pos: 0,
+            limit: b.len(),
+            collect,
+            problems: Vec::new(),
+            cp: Vec::new(),
+            major: 0,
+            bsm: None,
+            dyn_cache: HashMap::new(),
+            dyn_budget: DYNAMIC_BUDGET,
+            this_class: JStr::new(),
+        }
+    }
+
+    /// Reports a problem. Strict mode: hard -> `Err`, soft -> ignored.
+    /// Collect mode: recorded, `Ok`.
+    pub fn problem(&mut self, at: usize, prefix: &str, msg: impl AsRef<str>, hard: bool) -> R<()> {
+        if self.collect {
+            self.problems.push(format!("{}: {} (at byte {})", prefix, msg.as_ref(), at));
+            Ok(())
+        } else if hard {
+            err(at, prefix, msg)
+        } else {
+            Ok(())
+        }
+    }
+    pub fn hard(&mut self, at: usize, prefix: &str, msg: impl AsRef<str>) -> R<()> {
+        self.problem(at, prefix, msg, true)
+    }
+    pub fn soft(&mut self, at: usize, prefix: &str, msg: impl AsRef<str>) {
+        let _ = self.problem(at, prefix, msg, false);
+    }
+
+    // ---- primitive reads -------------------------------------------------
+
+    pub fn need(&self, n: usize) -> R<()> {
+        let end = self.pos.checked_add(n);
+        match end {
+            Some(e) if e <= self.limit => Ok(()),
+            _ => {
+                if self.limit < self.b.len() {
+                    err(self.pos, "attr-length", "content runs past attribute_length")
+                } else {
+                    err(self.pos, "truncated", format!("need {} more byte(s)", n))
+                }
+            }
+        }
+    }
+    pub fn u8(&mut self) -> R<u8> {
+        self.need(1)?;
+        let v = self.b[self.pos];
+        self.pos += 1;
+        Ok(v)
+    }
+    pub fn u16(&mut self) -> R<u16> {
+        self.need(2)?;
+        let v = u16::from_be_bytes([self.b[self.pos], self.b[self.pos + 1]]);
+        self.pos += 2;
+        Ok(v)
+    }
+    pub fn u32(&mut self) -> R<u32> {
+        self.need(4)?;
+        let p = self.pos;
+        let v = u32::from_be_bytes([self.b[p], self.b[p + 1], self.b[p + 2], self.b[p + 3]]);
+        self.pos += 4;
+        Ok(v)
+    }
+    pub fn take(&mut self, n: usize) -> R<&'b [u8]> {
+        self.need(n)?;
+        let s = &self.b[self.pos..self.pos + n];
+        self.pos += n;
+        Ok(s)
+    }
+
+    // ---- constant pool ---------------------------------------------------
+
+    fn read_cp(&mut self) -> R<()> {
+        let count_at = self.pos;
+        let count = self.u16()? as usize;
+        if count == 0 {
+            self.hard(count_at, "cp-count", "constant_pool_count is 0")?;
+        }
+        let mut cp: Vec<Cp> = Vec::new();
+        cp.push(Cp::Unusable);
+        while cp.len() < count {
+            let at = self.pos;
+            let tag = self.u8()?;
+            let e = match tag {
+                1 => {
+                    let n = self.u16()? as usize;
+                    Cp::Utf8(JStr::from_bytes(self.take(n)?))
+                }
+                3 => Cp::Int(self.u32()? as i32),
+                4 => Cp::Float(self.u32()?),
+                5 => {
+                    let h = self.u32()? as u64;
+                    let l = self.u32()? as u64;
+                    Cp::Long(((h << 32) | l) as i64)
+                }
+                6 => {
+                    let h = self.u32()? as u64;
+                    let l = self.u32()? as u64;
+                    Cp::Double((h << 32) | l)
+                }
+                7 => Cp::Class(self.u16()?),
+                8 => Cp::String(self.u16()?),
+                9 => Cp::Field(self.u16()?, self.u16()?),
+                10 => Cp::Method(self.u16()?, self.u16()?),
+                11 => Cp::IMethod(self.u16()?, self.u16()?),
+                12 => Cp::Nat(self.u16()?, self.u16()?),
+                15 => Cp::MHandle(self.u8()?, self.u16()?),
+                16 => Cp::MType(self.u16()?),
+                17 => Cp::Dynamic(self.u16()?, self.u16()?),
+                18 => Cp::Indy(self.u16()?, self.u16()?),
+                19 => Cp::Module(self.u16()?),
+                20 => Cp::Package(self.u16()?),
+                t => return err(at, "cp-tag", format!("unknown constant pool tag {} at index {}", t, cp.len())),
+            };
+            let wide = matches!(e, Cp::Long(_) | Cp::Double(_));
+            cp.push(e);
+            if wide {
+                if cp.len() >= count {
+                    self.hard(at, "cp-count", "Long/Double entry at last index has no second slot")?;
+                }
+                cp.push(Cp::Unusable);
+            }
+        }
+        self.cp = cp;
+        Ok(())
+    }
+
+    pub fn cp_get(&mut self, idx: u16, at: usize, want: &str) -> R<Option<Cp>> {
+        match self.cp.get(idx as usize) {
+            None => {
+                self.hard(at, "cp-index-range", format!("index {} out of range (count {}), wanted {}", idx, self.cp.len(), want))?;
+                Ok(None)
+            }
+            Some(Cp::Unusable) => {
+                self.hard(at, "cp-index-range", format!("index {} is unusable (0 or second slot of Long/Double), wanted {}", idx, want))?;
+                Ok(None)
+            }
+            Some(e) => Ok(Some(e.clone())),
+        }
+    }
+
+    fn kind_err(&mut self, idx: u16, at: usize, want: &str, got: &Cp) -> R<()> {
+        self.hard(at, "cp-index-kind", format!("index {} is {}, wanted {}", idx, got.kind(), want))
+    }
+
+    pub fn utf8(&mut self, idx: u16, at: usize) -> R<JStr> {
+        match self.cp_get(idx, at, "Utf8")? {
+            Some(Cp::Utf8(s)) => Ok(s),
+            Some(o) => {
+                self.kind_err(idx, at, "Utf8", &o)?;
+                Ok(JStr::new())
+            }
+            None => Ok(JStr::new()),
+        }
+    }
+    pub fn utf8_opt(&mut self, idx: u16, at: usize) -> R<Option<JStr>> {
+        if idx == 0 {
+            Ok(None)
+        } else {
+            self.utf8(idx, at).map(Some)
+        }
+    }
+    pub fn class(&mut self, idx: u16, at: usize) -> R<JStr> {
+        match self.cp_get(idx, at, "Class")? {
+            Some(Cp::Class(n)) => self.utf8(n, at),
+            Some(o) => {
+                self.kind_err(idx, at, "Class", &o)?;
+                Ok(JStr::new())
+            }
+            None => Ok(JStr::new()),
+        }
+    }
+    pub fn class_opt(&mut self, idx: u16, at: usize) -> R<Option<JStr>> {
+        if idx == 0 {
+            Ok(None)
+        } else {
+            self.class(idx, at).map(Some)
+        }
+    }
+    fn named(&mut self, idx: u16, at: usize, want: &'static str) -> R<JStr> {
+        match self.cp_get(idx, at, want)? {
+            Some(Cp::Module(n)) if want == "Module" => self.utf8(n, at),
+            Some(Cp::Package(n)) if want == "Package" => self.utf8(n, at),
+            Some(o) => {
+                self.kind_err(idx, at, want, &o)?;
+                Ok(JStr::new())
+            }
+            None => Ok(JStr::new()),
+        }
+    }
+    pub fn nat(&mut self, idx: u16, at: usize) -> R<(JStr, JStr)> {
+        match self.cp_get(idx, at, "NameAndType")? {
+            Some(Cp::Nat(n, d)) => Ok((self.utf8(n, at)?, self.utf8(d, at)?)),
+            Some(o) => {
+                self.kind_err(idx, at, "NameAndType", &o)?;
+                Ok((JStr::new(), JStr::new()))
+            }
+            None => Ok((JStr::new(), JStr::new())),
+        }
+    }
+    /// Resolves a Fieldref (`field == true`) or a Methodref /
+    /// InterfaceMethodref.
+    pub fn member(&mut self, idx: u16, at: usize, field: bool) -> R<MemberRef> {
+        let want = if field { "Fieldref" } else { "Methodref/InterfaceMethodref" };
+        let (c, n, itf) = match self.cp_get(idx, at, want)? {
+            Some(Cp::Field(c, n)) if field => (c, n, false),
+            Some(Cp::Method(c, n)) if !field => (c, n, false),
+            Some(Cp::IMethod(c, n)) if !field => (c, n, true),
+            Some(o) => {
+                self.kind_err(idx, at, want, &o)?;
+                return Ok(MemberRef::default());
+            }
+            None => return Ok(MemberRef::default()),
+        };
+        let owner = self.class(c, at)?;
+        let (name, desc) = self.nat(n, at)?;
+        Ok(MemberRef { owner, name, desc, is_interface: itf })
+    }
+    pub fn handle(&mut self, idx: u16, at: usize) -> R<Handle> {
+        let dflt = Handle { kind: 1, member: MemberRef::default() };
+        match self.cp_get(idx, at, "MethodHandle")? {
+            Some(Cp::MHandle(kind, r)) => {
+                if !(1..=9).contains(&kind) {
+                    self.hard(at, "cp-handle-kind", format!("reference_kind {} not in 1..=9", kind))?;
+                    return Ok(dflt);
+                }
+                let member = self.member(r, at, kind <= 4)?;
+                if !member.is_interface && kind == 9 {
+                    self.soft(at, "cp-index-kind", "invokeInterface handle must refer to an InterfaceMethodref");
+                }
+                if member.is_interface && (kind == 5 || kind == 8) {
+                    self.soft(at, "cp-index-kind", "invokeVirtual/newInvokeSpecial handle must refer to a Methodref");
+                }
+                if kind >= 5 {
+                    let n = member.name.as_bytes();
+                    if kind == 8 && n != b"<init>" {
+                        self.soft(at, "cp-handle-kind", "newInvokeSpecial handle must name <init>");
+                    }
+                    if kind != 8 && (n == b"<init>" || n == b"<clinit>") {
+                        self.soft(at, "cp-handle-kind", "handle names <init>/<clinit> with wrong kind");
+                    }
+                }
+                Ok(Handle { kind, member })
+            }
+            Some(o) => {
+                self.kind_err(idx, at, "MethodHandle", &o)?;
+                Ok(dflt)
+            }
+            None => Ok(dflt),
+        }
+    }
+
+    /// Resolves the pieces of a Dynamic / InvokeDynamic constant.
+    pub fn dynamic(&mut self, bsm_idx: u16, nat_idx: u16, at: usize, depth: usize) -> R<Dynamic> {
+        let dflt = || Dynamic { bsm: Handle { kind: 6, member: MemberRef::default() }, args: Vec::new(), name: JStr::new(), desc: JStr::new() };
+        if depth > MAX_DYNAMIC_DEPTH {
+            self.hard(at, "cp-cycle", "Dynamic constants nested too deeply (cycle?)")?;
+            return Ok(dflt());
+        }
+        let (name, desc) = self.nat(nat_idx, at)?;
+        let entry = match &self.bsm {
+            None => {
+                self.hard(at, "bootstrap", "Dynamic/InvokeDynamic constant but no BootstrapMethods attribute")?;
+                return Ok(dflt());
+            }
+            Some(t) => t.get(bsm_idx as usize).cloned(),
+        };
+        let (h, args_idx) = match entry {
+            Some(e) => e,
+            None => {
+                self.hard(at, "bootstrap", format!("bootstrap_method_attr_index {} out of range", bsm_idx))?;
+                return Ok(dflt());
+            }
+        };
+        let bsm = self.handle(h, at)?;
+        let mut args = Vec::new();
+        for a in args_idx {
+            args.push(self.loadable(a, at, depth + 1)?);
+        }
+        Ok(Dynamic { bsm, args, name, desc })
+    }
+
+    /// Resolves a loadable constant (JVMS 4.4 table 4.4-C).
+    pub fn loadable(&mut self, idx: u16, at: usize, depth: usize) -> R<Const> {
+        Ok(match self.cp_get(idx, at, "loadable constant")? {
+            Some(Cp::Int(v)) => Const::Int(v),
+            Some(Cp::Float(v)) => Const::Float(v),
+            Some(Cp::Long(v)) => Const::Long(v),
+            Some(Cp::Double(v)) => Const::Double(v),
+            Some(Cp::String(s)) => Const::String(self.utf8(s, at)?),
+            Some(Cp::Class(n)) => Const::Class(self.utf8(n, at)?),
+            Some(Cp::MType(d)) => Const::MethodType(self.utf8(d, at)?),
+            Some(Cp::MHandle(..)) => Const::MethodHandle(self.handle(idx, at)?),
+            Some(Cp::Dynamic(b, n)) => {
+                if let Some((c, size)) = self.dyn_cache.get(&idx) {
+                    if *size > self.dyn_budget {
+                        return err(at, "cp-cycle", "Dynamic constants expand to too many values");
+                    }
+                    self.dyn_budget -= *size;
+                    return Ok(c.clone());
+                }
+                let d = self.dynamic(b, n, at, depth)?;
+                let c = Const::Dynamic(Box::new(d));
+                let size = const_size(&c);
+                if size > self.dyn_budget {
+                    return err(at, "cp-cycle", "Dynamic constants expand to too many values");
+                }
+                self.dyn_budget -= size;
+                self.dyn_cache.insert(idx, (c.clone(), size));
+                c
+            }
+            Some(o) => {
+                self.kind_err(idx, at, "loadable constant", &o)?;
+                Const::Int(0)
+            }
+            None => Const::Int(0),
+        })
+    }
+
+    /// Checks every constant-pool entry's own references (JVMS 4.4.x).
+    fn check_cp(&mut self, at: usize) -> R<()> {
+        for i in 1..self.cp.len() {
+            let e = self.cp[i].clone();
+            let i16_ = i as u16;
+            match e.clone() {
+                Cp::Unusable | Cp::Int(_) | Cp::Float(_) | Cp::Long(_) | Cp::Double(_) => {}
+                Cp::Utf8(s) => {
+                    if !s.is_well_formed() {
+                        self.soft(at, "utf8", format!("constant {} is not well-formed modified UTF-8", i));
+                    }
+                }
+                Cp::Class(n) => {
+                    let s = self.utf8(n, at)?;
+                    if !desc::is_class_entry_name(s.as_bytes()) {
+                        self.soft(at, "name", format!("Class constant {} has malformed name {:?}", i, s));
+                    }
+                }
+                Cp::String(n) | Cp::MType(n) => {
+                    let s = self.utf8(n, at)?;
+                    if matches!(e, Cp::MType(_)) && desc::parse_method_desc(s.as_bytes()).is_none() {
+                        self.soft(at, "descriptor", format!("MethodType constant {} has malformed descriptor {:?}", i, s));
+                    }
+                }
+                Cp::Module(n) => {
+                    let s = self.utf8(n, at)?;
+                    if !desc::is_module_name(s.as_bytes()) {
+                        self.soft(at, "name", format!("Module constant {} has malformed name {:?}", i, s));
+                    }
+                }
+                Cp::Package(n) => {
+                    let s = self.utf8(n, at)?;
+                    if !desc::is_binary_class_name(s.as_bytes()) {
+                        self.soft(at, "name", format!("Package constant {} has malformed name {:?}", i, s));
+                    }
+                }
+                Cp::Nat(n, d) => {
+                    let name = self.utf8(n, at)?;
+                    let d = self.utf8(d, at)?;
+                    if !desc::is_unqualified_name(name.as_bytes()) && name.as_bytes() != b"<init>" && name.as_bytes() != b"<clinit>" {
+                        self.soft(at, "name", format!("NameAndType constant {} has malformed name {:?}", i, name));
+                    }
+                    if desc::parse_field_desc(d.as_bytes()).is_none() && desc::parse_method_desc(d.as_bytes()).is_none() {
+                        self.soft(at, "descriptor", format!("NameAndType constant {} has malformed descriptor {:?}", i, d));
+                    }
+                }
+                Cp::Field(..) => {
+                    let m = self.member(i16_, at, true)?;
+                    if desc::parse_field_desc(m.desc.as_bytes()).is_none() {
+                        self.soft(at, "descriptor", format!("Fieldref constant {} has malformed descriptor {:?}", i, m.desc));
+                    }
+                }
+                Cp::Method(..) | Cp::IMethod(..) => {
+                    let m = self.member(i16_, at, false)?;
+                    if desc::parse_method_desc(m.desc.as_bytes()).is_none() {
+                        self.soft(at, "descriptor", format!("method ref constant {} has malformed descriptor {:?}", i, m.desc));
+                    }
+                    if !desc::is_method_name(m.name.as_bytes()) || m.name.as_bytes() == b"<clinit>" {
+                        self.soft(at, "name", format!("method ref constant {} has malformed name {:?}", i, m.name));
+                    }
+                }
+                Cp::MHandle(..) => {
+                    self.handle(i16_, at)?;
+                    if self.major != 0 && self.major < 51 {
+                        self.soft(at, "version-feature", "MethodHandle constant before version 51");
+                    }
+                }
+                Cp::Dynamic(b, n) | Cp::Indy(b, n) => {
+                    let is_indy = matches!(e, Cp::Indy(..));
+                    let d = if is_indy {
+                        self.dynamic(b, n, at, 0)?
+                    } else {
+                        match self.loadable(i16_, at, 0)? {
+                            Const::Dynamic(d) => *d,
+                            _ => continue,
+                        }
+                    };
+                    let ok = if is_indy { desc::parse_method_desc(d.desc.as_bytes()).is_some() } else { desc::parse_field_desc(d.desc.as_bytes()).is_some() };
+                    if !ok {
+                        self.soft(at, "descriptor", format!("Dynamic/InvokeDynamic constant {} has malformed descriptor {:?}", i, d.desc));
+                    }
+                    let min = if is_indy { 51 } else { 55 };
+                    if self.major < min {
+                        self.soft(at, "version-feature", format!("{} constant before version {}", e.kind(), min));
+                    }
+                }
+            }
+            if matches!(e, Cp::Module(_) | Cp::Package(_)) && self.major < 53 {
+                self.soft(at, "version-feature", "Module/Package constant before version 53");
+            }
+            if matches!(e, Cp::MType(_)) && self.major < 51 {
+                self.soft(at, "version-feature", "MethodType constant before version 51");
+            }
+        }
+        Ok(())
+    }
+
+    // ---- pre-scan for BootstrapMethods ----------------------------------
+
+    fn skip_attrs(&mut self) -> R<()> {
+        let n = self.u16()?;
+        for _ in 0..n {
+            self.u16()?;
+            let l = self.u32()? as usize;
+            self.take(l)?;
+        }
+        Ok(())
+    }
+
+    fn prescan_bsm(&mut self) -> R<()> {
+        let save = self.pos;
+        let r = (|| -> R<()> {
+            self.take(6)?; // access, this, super
+            let n = self.u16()? as usize;
+            self.take(n.checked_mul(2).unwrap_or(usize::MAX))?;
+            for _ in 0..2 {
+                let n = self.u16()?;
+                for _ in 0..n {
+                    self.take(6)?;
+                    self.skip_attrs()?;
+                }
+            }
+            let n = self.u16()?;
+            for _ in 0..n {
+                let name = self.u16()?;
+                let l = self.u32()? as usize;
+                let body = self.take(l)?;
+                if self.bsm.is_none() && matches!(self.cp.get(name as usize), Some(Cp::Utf8(s)) if s.as_bytes() == b"BootstrapMethods") {
+                    // raw table; malformed content is reported by the main walk
+                    let mut t = Vec::new();
+                    let mut q = P::new(body, false);
+                    let cnt = q.u16()?;
+                    let mut ok = true;
+                    for _ in 0..cnt {
+                        let r = (|| -> R<(u16, Vec<u16>)> {
+                            let h = q.u16()?;
+                            let na = q.u16()?;
+                            let mut a = Vec::new();
+                            for _ in 0..na {
+                                a.push(q.u16()?);
+                            }
+                            Ok((h, a))
+                        })();
+                        match r {
+                            Ok(e) => t.push(e),
+                            Err(_) => {
+                                ok = false;
+                                break;
+                            }
+                        }
+                    }
+                    let _ = ok;
+                    self.bsm = Some(t);
+                }
+            }
+            Ok(())
+        })();
+        let _ = r;
+        self.pos = save;
+        Ok(())
+    }
+
+    // ---- class -----------------------------------------------------------
+
+    pub fn class_file(&mut self) -> R<Sem> {
+        let magic = self.u32()?;
+        if magic != 0xCAFEBABE {
+            // nothing sensible can follow
+            return err(0, "magic", format!("bad magic {:#010x}", magic));
+        }
+        let minor = self.u16()?;
+        let major = self.u16()?;
+        self.major = major;
+        if major < 45 {
+            self.soft(6, "version", format!("major version {} < 45", major));
+        }
+        if major >= 56 && minor != 0 && minor != 65535 {
+            self.soft(4, "version", format!("minor version {} must be 0 or 65535 for major >= 56", minor));
+        }
+        let cp_at = self.pos;
+        self.read_cp()?;
+        self.prescan_bsm()?;
+        self.check_cp(cp_at)?;
+
+        let mut s = Sem { minor, major, ..Sem::default() };
+        let at = self.pos;
+        s.access = self.u16()?;
+        let at_this = self.pos;
+        let this = self.u16()?;
+        s.this_class = self.class(this, at_this)?;
+        self.this_class = s.this_class.clone();
+        let at_super = self.pos;
+        let sup = self.u16()?;
+        s.super_class = self.class_opt(sup, at_super)?;
+        self.check_class_flags(at, &s);
+        let n = self.u16()?;
+        for _ in 0..n {
+            let at = self.pos;
+            let i = self.u16()?;
+            let c = self.class(i, at)?;
+            s.interfaces.push(c);
+        }
+        let n = self.u16()?;
+        for _ in 0..n {
+            let f = self.field()?;
+            s.fields.push(f);
+        }
+        let n = self.u16()?;
+        for _ in 0..n {
+            let m = self.method()?;
+            s.methods.push(m);
+        }
+        let a = self.attributes(Loc::Class, None, None)?;
+        s.source_file = a.source_file;
+        s.source_debug_extension = a.source_debug_extension;
+        s.inner_classes = a.inner_classes;
+        s.enclosing_method = a.enclosing_method;
+        s.signature = a.signature;
+        s.synthetic = a.synthetic;
+        s.deprecated = a.deprecated;
+        s.annotations = a.annotations;
+        s.type_annotations = a.type_annotations;
+        s.nest_host = a.nest_host;
+        s.nest_members = a.nest_members;
+        s.permitted_subclasses = a.permitted_subclasses;
+        s.record = a.record;
+        s.module = a.module;
+        s.module_packages = a.module_packages;
+        s.module_main_class = a.module_main_class;
+        s.unknown = a.unknown;
+
+        // BootstrapMethods must exist if the pool has Dynamic/InvokeDynamic
+        if self.bsm.is_none() && self.cp.iter().any(|e| matches!(e, Cp::Dynamic(..) | Cp::Indy(..))) {
+            self.hard(cp_at, "bootstrap", "pool has Dynamic/InvokeDynamic constants but there is no BootstrapMethods attribute")?;
+        }
+        if s.access & 0x8000 != 0 {
+            if s.super_class.is_some() || !s.interfaces.is_empty() || !s.fields.is_empty() || !s.methods.is_empty() {
+                self.soft(at, "module-class", "ACC_MODULE class must have no super class, interfaces, fields or methods");
+            }
+            if s.module.is_none() {
+                self.soft(at, "module-class", "ACC_MODULE class without Module attribute");
+            }
+        } else if s.super_class.is_none() && s.this_class.as_bytes() != b"java/lang/Object" {
+            self.soft(at_super, "super-class", "super_class is 0 but the class is not java/lang/Object or a module");
+        }
+        Ok(s)
+    }
+
+    fn check_class_flags(&mut self, at: usize, s: &Sem) {
+        let f = s.access;
+        if f & 0x0200 != 0 {
+            if f & 0x0400 == 0 {
+                self.soft(at, "flags", "ACC_INTERFACE without ACC_ABSTRACT");
+            }
+            if f & (0x0010 | 0x0020 | 0x4000 | 0x8000) != 0 && f & 0x8000 == 0 {
+                self.soft(at, "flags", "ACC_INTERFACE with FINAL/SUPER/ENUM");
+            }
+        } else if f & 0x2000 != 0 {
+            self.soft(at, "flags", "ACC_ANNOTATION without ACC_INTERFACE");
+        }
+        if f & 0x0010 != 0 && f & 0x0400 != 0 {
+            self.soft(at, "flags", "class is both FINAL and ABSTRACT");
+        }
+    }
+
+    fn field(&mut self) -> R<Field> {
+        let at = self.pos;
+        let access = self.u16()?;
+        let ni = self.u16()?;
+        let name = self.utf8(ni, at + 2)?;
+        let di = self.u16()?;
+        let desc_ = self.utf8(di, at + 4)?;
+        if !desc::is_unqualified_name(name.as_bytes()) {
+            self.soft(at + 2, "name", format!("malformed field name {:?}", name));
+        }
+        if desc::parse_field_desc(desc_.as_bytes()).is_none() {
+            self.soft(at + 4, "descriptor", format!("malformed field descriptor {:?}", desc_));
+        }
+        let vis = (access & 1 != 0) as u8 + (access & 2 != 0) as u8 + (access & 4 != 0) as u8;
+        if vis > 1 || (access & 0x0010 != 0 && access & 0x0040 != 0) {
+            self.soft(at, "flags", "illegal field access flag combination");
+        }
+        let a = self.attributes(Loc::Field, None, None)?;
+        if let Some(cv) = &a.constant_value {
+            let ok = match (cv, desc_.as_bytes()) {
+                (ConstValue::Int(_), b"I") | (ConstValue::Int(_), b"S") | (ConstValue::Int(_), b"C") | (ConstValue::Int(_), b"B") | (ConstValue::Int(_), b"Z") => true,
+                (ConstValue::Float(_), b"F") | (ConstValue::Long(_), b"J") | (ConstValue::Double(_), b"D") => true,
+                (ConstValue::String(_), b"Ljava/lang/String;") => true,
+                _ => false,
+            };
+            if !ok {
+                self.soft(at, "const-value", "ConstantValue kind does not match the field descriptor");
+            }
+        }
+        Ok(Field {
+            access,
+            name,
+            desc: desc_,
+            constant_value: a.constant_value,
+            signature: a.signature,
+            synthetic: a.synthetic,
+            deprecated: a.deprecated,
+            annotations: a.annotations,
+            type_annotations: a.type_annotations,
+            unknown: a.unknown,
+        })
+    }
+
+    fn method(&mut self) -> R<Method> {
+        let at = self.pos;
+        let access = self.u16()?;
+        let ni = self.u16()?;
+        let name = self.utf8(ni, at + 2)?;
+        let di = self.u16()?;
+        let desc_ = self.utf8(di, at + 4)?;
+        if !desc::is_method_name(name.as_bytes()) {
+            self.soft(at + 2, "name", format!("malformed method name {:?}", name));
+        }
+        match desc::method_arg_slots(desc_.as_bytes()) {
+            None => self.soft(at + 4, "descriptor", format!("malformed method descriptor {:?}", desc_)),
+            Some(n) => {
+                if n + (access & 8 == 0) as usize > 255 {
+                    self.soft(at + 4, "descriptor", "method has more than 255 parameter slots");
+                }
+            }
+        }
+        let vis = (access & 1 != 0) as u8 + (access & 2 != 0) as u8 + (access & 4 != 0) as u8;
+        if vis > 1 {
+            self.soft(at, "flags", "illegal method access flag combination");
+        }
+        let mi = MethodInfo { access, name: name.clone(), desc: desc_.clone() };
+        let a = self.attributes(Loc::Method, None, Some(&mi))?;
+        let is_clinit = name.as_bytes() == b"<clinit>";
+        let wants_code = access & (0x0100 | 0x0400) == 0;
+        if !is_clinit || self.major < 51 || access & 8 != 0 {
+            if wants_code && a.code.is_none() {
+                self.soft(at, "code-presence", "non-native, non-abstract method without Code");
+            }
+            if !wants_code && a.code.is_some() {
+                self.soft(at, "code-presence", "native or abstract method with Code");
+            }
+        }
+        Ok(Method {
+            access,
+            name,
+            desc: desc_,
+            code: a.code,
+            exceptions: a.exceptions,
+            method_parameters: a.method_parameters,
+            annotation_default: a.annotation_default,
+            parameter_annotations: a.parameter_annotations,
+            annotations: a.annotations,
+            type_annotations: a.type_annotations,
+            signature: a.signature,
+            synthetic: a.synthetic,
+            deprecated: a.deprecated,
+            unknown: a.unknown,
+        })
+    }
+
+    // ---- attributes ------------------------------------------------------
+
+    pub fn attributes(&mut self, loc: Loc, cx: Option<&CodeCx>, mi: Option<&MethodInfo>) -> R<Attrs> {
+        let mut a = Attrs::default();
+        let n = self.u16()?;
+        for _ in 0..n {
+            let at = self.pos;
+            let ni = self.u16()?;
+            let name = self.utf8(ni, at)?;
+            let len = self.u32()? as usize;
+            let end = match self.pos.checked_add(len) {
+                Some(e) if e <= self.limit => e,
+                _ => {
+                    return if self.limit < self.b.len() {
+                        err(at, "attr-length", format!("attribute {} ({} bytes) runs past the enclosing attribute", name, len))
+                    } else {
+                        err(at, "truncated", format!("attribute {} needs {} bytes", name, len))
+                    }
+                }
+            };
+            let outer = self.limit;
+            self.limit = end;
+            let r = self.attribute(loc, &name, len, &mut a, cx, mi);
+            self.limit = outer;
+            match r {
+                Ok(()) => {
+                    if self.pos != end {
+                        self.hard(at, "attr-length", format!("attribute {}: attribute_length {} but content is {} bytes", name, len, self.pos + len - end))?;
+                        self.pos = end;
+                    }
+                }
+                Err(e) => {
+                    if self.collect {
+                        self.problems.push(format!("{} (at byte {})", e.what, e.offset));
+                        self.pos = end;
+                    } else {
+                        return Err(e);
+                    }
+                }
+            }
+        }
+        Ok(a)
+    }
+
+    fn once(&mut self, a: &mut Attrs, name: &'static str, at: usize) -> R<bool> {
+        if a.seen.contains(&name) {
+            self.hard(at, "attr-duplicate", format!("more than one {} attribute", name))?;
+            return Ok(false);
+        }
+        a.seen.push(name);
+        Ok(true)
+    }
+
+    fn class_list(&mut self) -> R<Vec<JStr>> {
+        let n = self.u16()?;
+        let mut v = Vec::new();
+        for _ in 0..n {
+            let at = self.pos;
+            let i = self.u16()?;
+            v.push(self.class(i, at)?);
+        }
+        Ok(v)
+    }
+
+    fn attribute(&mut self, loc: Loc, name: &JStr, len: usize, a: &mut Attrs, cx: Option<&CodeCx>, mi: Option<&MethodInfo>) -> R<()> {
+        let at = self.pos;
+        let nm = name.as_bytes();
+        macro_rules! skip_dup {
+            ($n:expr) => {
+                if !self.once(a, $n, at)? {
+                    self.pos = self.limit;
+                    return Ok(());
+                }
+            };
+        }
+        let any_member = matches!(loc, Loc::Class | Loc::Field | Loc::Method);
+        let annotatable = matches!(loc, Loc::Class | Loc::Field | Loc::Method | Loc::Component);
+        match nm {
+            b"ConstantValue" if loc == Loc::Field => {
+                skip_dup!("ConstantValue");
+                let i = self.u16()?;
+                a.constant_value = Some(match self.cp_get(i, at, "Integer/Float/Long/Double/String")? {
+                    Some(Cp::Int(v)) => ConstValue::Int(v),
+                    Some(Cp::Float(v)) => ConstValue::Float(v),
+                    Some(Cp::Long(v)) => ConstValue::Long(v),
+                    Some(Cp::Double(v)) => ConstValue::Double(v),
+                    Some(Cp::String(s)) => ConstValue::String(self.utf8(s, at)?),
+                    Some(o) => {
+                        self.kind_err(i, at, "Integer/Float/Long/Double/String", &o)?;
+                        ConstValue::Int(0)
+                    }
+                    None => ConstValue::Int(0),
+                });
+            }
+            b"Code" if loc == Loc::Method => {
+                skip_dup!("Code");
+                let mi = mi.expect("method info");
+                a.code = Some(self.code(mi)?);
+            }
+            b"Exceptions" if loc == Loc::Method => {
+                skip_dup!("Exceptions");
+                a.exceptions = Some(self.class_list()?);
+            }
+            b"MethodParameters" if loc == Loc::Method => {
+                skip_dup!("MethodParameters");
+                let n = self.u8()?;
+                let mut v = Vec::new();
+                for _ in 0..n {
+                    let at = self.pos;
+                    let ni = self.u16()?;
+                    let name = self.utf8_opt(ni, at)?;
+                    let access = self.u16()?;
+                    v.push(MethodParameter { name, access });
+                }
+                a.method_parameters = Some(v);
+            }
+            b"AnnotationDefault" if loc == Loc::Method => {
+                skip_dup!("AnnotationDefault");
+                a.annotation_default = Some(self.element_value(0)?);
+            }
+            b"RuntimeVisibleParameterAnnotations" | b"RuntimeInvisibleParameterAnnotations" if loc == Loc::Method => {
+                let vis = nm == b"RuntimeVisibleParameterAnnotations";
+                skip_dup!(if vis { "RuntimeVisibleParameterAnnotations" } else { "RuntimeInvisibleParameterAnnotations" });
+                let n = self.u8()?;
+                let mut v = Vec::new();
+                for _ in 0..n {
+                    v.push(self.annotation_list()?);
+                }
+                if vis {
+                    a.parameter_annotations.visible = Some(v);
+                } else {
+                    a.parameter_annotations.invisible = Some(v);
+                }
+            }
+            b"Signature" if annotatable => {
+                skip_dup!("Signature");
+                let i = self.u16()?;
+                a.signature = Some(self.utf8(i, at)?);
+            }
+            b"Synthetic" if any_member => {
+                if len != 0 {
+                    self.hard(at, "attr-length", "Synthetic attribute must be empty")?;
+                    self.pos = self.limit;
+                }
+                a.synthetic = true;
+            }
+            b"Deprecated" if any_member => {
+                if len != 0 {
+                    self.hard(at, "attr-length", "Deprecated attribute must be empty")?;
+                    self.pos = self.limit;
+                }
+                a.deprecated = true;
+            }
+            b"RuntimeVisibleAnnotations" | b"RuntimeInvisibleAnnotations" if annotatable => {
+                let vis = nm == b"RuntimeVisibleAnnotations";
+                skip_dup!(if vis { "RuntimeVisibleAnnotations" } else { "RuntimeInvisibleAnnotations" });
+                let l = self.annotation_list()?;
+                if vis {
+                    a.annotations.visible = l;
+                } else {
+                    a.annotations.invisible = l;
+                }
+            }
+            b"RuntimeVisibleTypeAnnotations" | b"RuntimeInvisibleTypeAnnotations" => {
+                let vis = nm == b"RuntimeVisibleTypeAnnotations";
+                skip_dup!(if vis { "RuntimeVisibleTypeAnnotations" } else { "RuntimeInvisibleTypeAnnotations" });
+                let n = self.u16()?;
+                let mut v = Vec::new();
+                for _ in 0..n {
+                    v.push(self.type_annotation(loc, cx)?);
+                }
+                if vis {
+                    a.type_annotations.visible = v;
+                } else {
+                    a.type_annotations.invisible = v;
+                }
+            }
+            b"SourceFile" if loc == Loc::Class => {
+                skip_dup!("SourceFile");
+                let i = self.u16()?;
+                a.source_file = Some(self.utf8(i, at)?);
+            }
+            b"SourceDebugExtension" if loc == Loc::Class => {
+                skip_dup!("SourceDebugExtension");
+                a.source_debug_extension = Some(self.take(len)?.to_vec());
+            }
+            b"InnerClasses" if loc == Loc::Class => {
+                skip_dup!("InnerClasses");
+                let n = self.u16()?;
+                let mut v = Vec::new();
+                for _ in 0..n {
+                    let at = self.pos;
+                    let i = self.u16()?;
+                    let inner = self.class(i, at)?;
+                    let o = self.u16()?;
+                    let outer = self.class_opt(o, at + 2)?;
+                    let ni = self.u16()?;
+                    let inner_name = self.utf8_opt(ni, at + 4)?;
+                    let access = self.u16()?;
+                    v.push(InnerClass { inner, outer, inner_name, access });
+                }
+                a.inner_classes = Some(v);
+            }
+            b"EnclosingMethod" if loc == Loc::Class => {
+                skip_dup!("EnclosingMethod");
+                let c = self.u16()?;
+                let class = self.class(c, at)?;
+                let m = self.u16()?;
+                let method = if m == 0 { None } else { Some(self.nat(m, at + 2)?) };
+                a.enclosing_method = Some(EnclosingMethod { class, method });
+            }
+            b"NestHost" if loc == Loc::Class => {
+                skip_dup!("NestHost");
+                let i = self.u16()?;
+                a.nest_host = Some(self.class(i, at)?);
+            }
+            b"NestMembers" if loc == Loc::Class => {
+                skip_dup!("NestMembers");
+                a.nest_members = Some(self.class_list()?);
+            }
+            b"PermittedSubclasses" if loc == Loc::Class => {
+                skip_dup!("PermittedSubclasses");
+                a.permitted_subclasses = Some(self.class_list()?);
+            }
+            b"ModuleMainClass" if loc == Loc::Class => {
+                skip_dup!("ModuleMainClass");
+                let i = self.u16()?;
+                a.module_main_class = Some(self.class(i, at)?);
+            }
+            b"ModulePackages" if loc == Loc::Class => {
+                skip_dup!("ModulePackages");
+                let n = self.u16()?;
+                let mut v = Vec::new();
+                for _ in 0..n {
+                    let at = self.pos;
+                    let i = self.u16()?;
+                    v.push(self.named(i, at, "Package")?);
+                }
+                a.module_packages = Some(v);
+            }
+            b"Module" if loc == Loc::Class => {
+                skip_dup!("Module");
+                a.module = Some(self.module()?);
+            }
+            b"Record" if loc == Loc::Class => {
+                skip_dup!("Record");
+                let n = self.u16()?;
+                let mut v = Vec::new();
+                for _ in 0..n {
+                    let at = self.pos;
+                    let ni = self.u16()?;
+                    let name = self.utf8(ni, at)?;
+                    let di = self.u16()?;
+                    let desc_ = self.utf8(di, at + 2)?;
+                    if !desc::is_unqualified_name(name.as_bytes()) {
+                        self.soft(at, "name", format!("malformed record component name {:?}", name));
+                    }
+                    if desc::parse_field_desc(desc_.as_bytes()).is_none() {
+                        self.soft(at + 2, "descriptor", format!("malformed record component descriptor {:?}", desc_));
+                    }
+                    let ca = self.attributes(Loc::Component, None, None)?;
+                    v.push(RecordComponent {
+                        name,
+                        desc: desc_,
+                        signature: ca.signature,
+                        annotations: ca.annotations,
+                        type_annotations: ca.type_annotations,
+                        unknown: ca.unknown,
+                    });
+                }
+                a.record = Some(v);
+            }
+            b"BootstrapMethods" if loc == Loc::Class => {
+                skip_dup!("BootstrapMethods");
+                let n = self.u16()?;
+                for _ in 0..n {
+                    let at = self.pos;
+                    let h = self.u16()?;
+                    self.handle(h, at)?;
+                    let na = self.u16()?;
+                    for _ in 0..na {
+                        let at = self.pos;
+                        let ai = self.u16()?;
+                        self.loadable(ai, at, 1)?;
+                    }
+                }
+            }
+            b"LineNumberTable" if loc == Loc::Code => {
+                let cx = cx.expect("code cx");
+                let n = self.u16()?;
+                for _ in 0..n {
+                    let at = self.pos;
+                    let pc = self.u16()? as usize;
+                    let line = self.u16()?;
+                    let idx = match cx.insn_at(pc) {
+                        Some(i) => i,
+                        None => {
+                            if !cx.broken {
+                                self.hard(at, "line-number", format!("start_pc {} is not an instruction boundary", pc))?;
+                            }
+                            0
+                        }
+                    };
+                    a.line_numbers.push(LineNumber { at: idx, line });
+                }
+            }
+            b"LocalVariableTable" | b"LocalVariableTypeTable" if loc == Loc::Code => {
+                let cx = cx.expect("code cx");
+                let is_type = nm == b"LocalVariableTypeTable";
+                let n = self.u16()?;
+                for _ in 0..n {
+                    let at = self.pos;
+                    let pc = self.u16()? as usize;
+                    let l = self.u16()? as usize;
+                    let ni = self.u16()?;
+                    let name = self.utf8(ni, at + 4)?;
+                    let di = self.u16()?;
+                    let d = self.utf8(di, at + 6)?;
+                    let slot = self.u16()?;
+                    let (start, end) = match (cx.insn_at(pc), cx.insn_or_end(pc + l)) {
+                        (Some(s), Some(e)) => (s, e),
+                        _ => {
+                            if !cx.broken {
+                                self.hard(at, "local-var", format!("range [{}, {}) is not on instruction boundaries", pc, pc + l))?;
+                            }
+                            (0, 0)
+                        }
+                    };
+                    if !desc::is_unqualified_name(name.as_bytes()) {
+                        self.soft(at + 4, "name", format!("malformed local variable name {:?}", name));
+                    }
+                    if !is_type && desc::parse_field_desc(d.as_bytes()).is_none() {
+                        self.soft(at + 6, "descriptor", format!("malformed local variable descriptor {:?}", d));
+                    }
+                    let lv = LocalVar { start, end, name, desc: d, slot };
+                    if is_type {
+                        a.local_var_types.push(lv);
+                    } else {
+                        a.local_vars.push(lv);
+                    }
+                }
+            }
+            b"StackMapTable" if loc == Loc::Code => {
+                skip_dup!("StackMapTable");
+                let cx = cx.expect("code cx");
+                a.frames_raw = Some(self.stack_map_table(cx)?);
+            }
+            _ => {
+                let bytes = self.take(len)?.to_vec();
+                a.unknown.push(UnknownAttr { name: name.clone(), bytes });
+            }
+        }
+        Ok(())
+    }
+
+    fn module(&mut self) -> R<Module> {
+        let at = self.pos;
+        let ni = self.u16()?;
+        let name = self.named(ni, at, "Module")?;
+        let flags = self.u16()?;
+        let vi = self.u16()?;
+        let version = self.utf8_opt(vi, at + 4)?;
+        let mut m = Module { name, flags, version, ..Module::default() };
+        let n = self.u16()?;
+        for _ in 0..n {
+            let at = self.pos;
+            let i = self.u16()?;
+            let module = self.named(i, at, "Module")?;
+            let flags = self.u16()?;
+            let vi = self.u16()?;
+            let version = self.utf8_opt(vi, at + 4)?;
+            m.requires.push(Requires { module, flags, version });
+        }
+        for which in 0..2 {
+            let n = self.u16()?;
+            for _ in 0..n {
+                let at = self.pos;
+                let i = self.u16()?;
+                let package = self.named(i, at, "Package")?;
+                let flags = self.u16()?;
+                let nt = self.u16()?;
+                let mut to = Vec::new();
+                for _ in 0..nt {
+                    let at = self.pos;
+                    let i = self.u16()?;
+                    to.push(self.named(i, at, "Module")?);
+                }
+                let e = Exports { package, flags, to };
+                if which == 0 {
+                    m.exports.push(e);
+                } else {
+                    m.opens.push(e);
+                }
+            }
+        }
+        m.uses = self.class_list()?;
+        let n = self.u16()?;
+        for _ in 0..n {
+            let at = self.pos;
+            let i = self.u16()?;
+            let service = self.class(i, at)?;
+            let with = self.class_list()?;
+            m.provides.push(Provides { service, with });
+        }
+        Ok(m)
+    }
+
+    // ---- annotations -----------------------------------------------------
+
+    fn annotation_list(&mut self) -> R<Vec<Annotation>> {
+        let n = self.u16()?;
+        let mut v = Vec::new();
+        for _ in 0..n {
+            v.push(self.annotation(0)?);
+        }
+        Ok(v)
+    }
+
+    fn annotation(&mut self, depth: usize) -> R<Annotation> {
+        if depth > MAX_ANNOTATION_DEPTH {
+            return err(self.pos, "annotation-depth", "annotations nested too deeply");
+        }
+        let at = self.pos;
+        let ti = self.u16()?;
+        let type_desc = self.utf8(ti, at)?;
+        if desc::parse_field_desc(type_desc.as_bytes()).is_none() {
+            self.soft(at, "descriptor", format!("malformed annotation type descriptor {:?}", type_desc));
+        }
+        let n = self.u16()?;
+        let mut pairs = Vec::new();
+        for _ in 0..n {
+            let at = self.pos;
+            let ni = self.u16()?;
+            let name = self.utf8(ni, at)?;
+            let value = self.element_value(depth + 1)?;
+            pairs.push(Pair { name, value });
+        }
+        Ok(Annotation { type_desc, pairs })
+    }
+
+    fn int_const(&mut self, what: &str) -> R<i32> {
+        let at = self.pos;
+        let i = self.u16()?;
+        Ok(match self.cp_get(i, at, "Integer")? {
+            Some(Cp::Int(v)) => v,
+            Some(o) => {
+                self.kind_err(i, at, what, &o)?;
+                0
+            }
+            None => 0,
+        })
+    }
+
+    fn element_value(&mut self, depth: usize) -> R<ElementValue> {
+        if depth > MAX_ANNOTATION_DEPTH {
+            return err(self.pos, "annotation-depth", "element values nested too deeply");
+        }
+        let at = self.pos;
+        let tag = self.u8()?;
+        Ok(match tag {
+            b'B' => {
+                let v = self.int_const("Integer")?;
+                if !(-128..=127).contains(&v) {
+                    self.soft(at, "element-value-range", "byte value out of range");
+                }
+                ElementValue::Byte(v)
+            }
+            b'C' => {
+                let v = self.int_const("Integer")?;
+                if !(0..=65535).contains(&v) {
+                    self.soft(at, "element-value-range", "char value out of range");
+                }
+                ElementValue::Char(v)
+            }
+            b'I' => ElementValue::Int(self.int_const("Integer")?),
+            b'S' => {
+                let v = self.int_const("Integer")?;
+                if !(-32768..=32767).contains(&v) {
+                    self.soft(at, "element-value-range", "short value out of range");
+                }
+                ElementValue::Short(v)
+            }
+            b'Z' => {
+                let v = self.int_const("Integer")?;
+                if !(0..=1).contains(&v) {
+                    self.soft(at, "element-value-range", "boolean value out of range");
+                }
+                ElementValue::Boolean(v)
+            }
+            b'D' | b'F' | b'J' => {
+                let at = self.pos;
+                let i = self.u16()?;
+                match (tag, self.cp_get(i, at, "Double/Float/Long")?) {
+                    (b'D', Some(Cp::Double(v))) => ElementValue::Double(v),
+                    (b'F', Some(Cp::Float(v))) => ElementValue::Float(v),
+                    (b'J', Some(Cp::Long(v))) => ElementValue::Long(v),
+                    (_, Some(o)) => {
+                        self.kind_err(i, at, "constant matching element_value tag", &o)?;
+                        ElementValue::Int(0)
+                    }
+                    (_, None) => ElementValue::Int(0),
+                }
+            }
+            b's' => {
+                let at = self.pos;
+                let i = self.u16()?;
+                ElementValue::String(self.utf8(i, at)?)
+            }
+            b'e' => {
+                let at = self.pos;
+                let t = self.u16()?;
+                let type_desc = self.utf8(t, at)?;
+                let c = self.u16()?;
+                let const_name = self.utf8(c, at + 2)?;
+                if desc::parse_field_desc(type_desc.as_bytes()).is_none() {
+                    self.soft(at, "descriptor", format!("malformed enum type descriptor {:?}", type_desc));
+                }
+                ElementValue::Enum { type_desc, const_name }
+            }
+            b'c' => {
+                let at = self.pos;
+                let i = self.u16()?;
+                let d = self.utf8(i, at)?;
+                if d.as_bytes() != b"V" && desc::parse_field_desc(d.as_bytes()).is_none() {
+                    self.soft(at, "descriptor", format!("malformed class element descriptor {:?}", d));
+                }
+                ElementValue::Class(d)
+            }
+            b'@' => ElementValue::Annotation(Box::new(self.annotation(depth + 1)?)),
+            b'[' => {
+                let n = self.u16()?;
+                let mut v = Vec::new();
+                for _ in 0..n {
+                    v.push(self.element_value(depth + 1)?);
+                }
+                ElementValue::Array(v)
+            }
+            t => return err(at, "element-value-tag", format!("unknown element_value tag {:#04x}", t)),
+        })
+    }
+
+    fn type_annotation(&mut self, loc: Loc, cx: Option<&CodeCx>) -> R<TypeAnnotation> {
+        let at = self.pos;
+        let tt = self.u8()?;
+        let code_pc = |p: &mut P<'b>, pc: usize, at: usize, end_ok: bool| -> R<usize> {
+            match cx {
+                None => {
+                    p.hard(at, "type-annotation-target", "code-relative target outside a Code attribute")?;
+                    Ok(0)
+                }
+                Some(cx) => {
+                    let r = if end_ok { cx.insn_or_end(pc) } else { cx.insn_at(pc) };
+                    match r {
+                        Some(i) => Ok(i),
+                        None => {
+                            if !cx.broken {
+                                p.hard(at, "type-annotation-offset", format!("offset {} is not an instruction boundary", pc))?;
+                            }
+                            Ok(0)
+                        }
+                    }
+                }
+            }
+        };
+        let (target, allowed): (Target, &[Loc]) = match tt {
+            0x00 | 0x01 => (Target::TypeParameter { target_type: tt, index: self.u8()? }, if tt == 0 { &[Loc::Class] } else { &[Loc::Method] }),
+            0x10 => (Target::Supertype(self.u16()?), &[Loc::Class]),
+            0x11 | 0x12 => {
+                let param = self.u8()?;
+                let bound = self.u8()?;
+                (Target::TypeParameterBound { target_type: tt, param, bound }, if tt == 0x11 { &[Loc::Class] } else { &[Loc::Method] })
+            }
+            0x13 => (Target::Empty(tt), &[Loc::Field, Loc::Component]),
+            0x14 | 0x15 => (Target::Empty(tt), &[Loc::Method]),
+            0x16 => (Target::FormalParameter(self.u8()?), &[Loc::Method]),
+            0x17 => (Target::Throws(self.u16()?), &[Loc::Method]),
+            0x40 | 0x41 => {
+                let n = self.u16()?;
+                let mut table = Vec::new();
+                for _ in 0..n {
+                    let at = self.pos;
+                    let pc = self.u16()? as usize;
+                    let l = self.u16()? as usize;
+                    let slot = self.u16()?;
+                    let start = code_pc(self, pc, at, false)?;
+                    let end = code_pc(self, pc + l, at, true)?;
+                    table.push(LocalVarRange { start, end, slot });
+                }
+                (Target::LocalVar { target_type: tt, table }, &[Loc::Code])
+            }
+            0x42 => {
+                let i = self.u16()?;
+                if let Some(cx) = cx {
+                    if i as usize >= cx.n_exceptions {
+                        self.soft(at, "type-annotation-target", "catch target index out of range");
+                    }
+                }
+                (Target::Catch(i), &[Loc::Code])
+            }
+            0x43..=0x46 => {
+                let pc = self.u16()? as usize;
+                (Target::Offset { target_type: tt, at: code_pc(self, pc, at + 1, false)? }, &[Loc::Code])
+            }
+            0x47..=0x4B => {
+                let pc = self.u16()? as usize;
+                let index = self.u8()?;
+                (Target::TypeArgument { target_type: tt, at: code_pc(self, pc, at + 1, false)?, index }, &[Loc::Code])
+            }
+            t => return err(at, "type-annotation-target", format!("unknown target_type {:#04x}", t)),
+        };
+        if !allowed.contains(&loc) {
+            self.soft(at, "type-annotation-target", format!("target_type {:#04x} not allowed in {:?}", tt, loc));
+        }
+        let n = self.u8()?;
+        let mut path = Vec::new();
+        for _ in 0..n {
+            let at = self.pos;
+            let kind = self.u8()?;
+            let arg = self.u8()?;
+            if kind > 3 || (kind < 3 && arg != 0) {
+                self.soft(at, "type-path", "illegal type_path entry");
+            }
+            path.push(PathStep { kind, arg });
+        }
+        let annotation = self.annotation(0)?;
+        Ok(TypeAnnotation { target, path, annotation })
+    }
+}
+
+pub(crate) struct MethodInfo {
+    pub access: u16,
+    pub name: JStr,
+    pub desc: JStr,
+}
+
+fn const_size(c: &Const) -> usize {
+    match c {
+        Const::Dynamic(d) => 1 + d.args.iter().map(const_size).sum::<usize>(),
+        _ => 1,
+    }
+}
+
+/// Parses one class file from the start of `bytes`; returns the class and the
+/// number of bytes it occupies.
+pub fn parse_prefix(bytes: &[u8]) -> Result<(Sem, usize), ParseError> {
+    let mut p = P::new(bytes, false);
+    let s = p.class_file()?;
+    Ok((s, p.pos))
+}
+
+/// Parses exactly one class file; trailing bytes are an error
+/// (`trailing-bytes:`).
+pub fn parse(bytes: &[u8]) -> Result<Sem, ParseError> {
+    let (s, n) = parse_prefix(bytes)?;
+    if n != bytes.len() {
+        return err(n, "trailing-bytes", format!("{} byte(s) after the class", bytes.len() - n));
+    }
+    Ok(s)
+}
+
+/// Runs the walker in collect mode. Used by `validate`.
+pub(crate) fn collect(bytes: &[u8]) -> Vec<String> {
+    let mut p = P::new(bytes, true);
+    match p.class_file() {
+        Ok(_) => {
+            if p.pos != bytes.len() {
+                p.problems.push(format!("trailing-bytes: {} byte(s) after the class (at byte {})", bytes.len() - p.pos, p.pos));
+            }
+        }
+        Err(e) => p.problems.push(format!("{} (at byte {})", e.what, e.offset)),
+    }
+    p.problems
+}
